@@ -48,12 +48,17 @@ def declare(rep):
     rep.rule("C11.out", "over the same orderings: output q is backend value[q] when in range and default[q] otherwise", floor=100)
 
 
-def run(rep, tier):
+def harnesses(tier):
     if tier == "quick":
         combos = [(N, M, s) for N in (1, 2, 3) for s in ("size_t", "int", "float") for M in ((N % 3) + 1,)] + [(2, 2, "double"), (1, 4, "unsigned")]
     else:
         combos = [(N, M, s) for N in (1, 2, 3, 4) for M in (1, 2, 3, 4) for s in ("size_t", "unsigned", "int", "float", "double")]
     hs = [make(N, M, s, "double" if (N + M) % 2 else "float") for (N, M, s) in combos]
+    return hs
+
+
+def run(rep, tier):
+    hs = harnesses(tier)
     harness.build(hs, "c11")
     o3 = list(ir.weak_orderings(3))
     for h in hs:
